@@ -4,6 +4,7 @@ import (
 	"io"
 	"net"
 	"sync"
+	"sync/atomic"
 	"time"
 )
 
@@ -88,7 +89,7 @@ func (l *FakeListener) IsClosed() bool {
 func (l *FakeListener) IsParked() bool {
 	l.mu.Lock()
 	defer l.mu.Unlock()
-	return l.Parked
+	return l.Parked && len(l.q) == 0 && !l.timedOut // something queued or an expired deadline: it is about to run
 }
 
 func NewFakeListener(rec *Rec) *FakeListener {
@@ -209,6 +210,7 @@ type FakeConn struct {
 	dlL       int64 // logical read deadline
 	AtGate    bool  // the connection goroutine is parked in RemoteAddr
 	RaddrGate chan struct{}
+	DeferCl   *int32 // while *DeferCl == 1 the closure is not recorded here (bursts: the driver records it afterwards)
 	// gate: when non-nil, Read parks before looking at input until released (C17 schedules)
 }
 
@@ -306,7 +308,7 @@ func (c *FakeConn) Close() error {
 	c.mu.Lock()
 	already := c.closed
 	c.closed = true
-	if !already {
+	if !already && !(c.DeferCl != nil && atomic.LoadInt32(c.DeferCl) == 1) {
 		// recorded before anyone waiting for the closure can go on (and start the next scenario)
 		c.emit(E{"e": "cl"})
 	}
